@@ -148,6 +148,8 @@ Definition chk_C09 (s : src) (o : tree_obs) : N :=
   | SMapped v n m orig (Some im) remove =>
     let original := match orig with Some t => Some t | None => outer_content_of m (sm_sources m) 0 n end in
     if negb (treeA s) then 100
+    (* "1-3 sources, one of them the inner source name": exactly one *)
+    else if negb (len (filter (fun x => text_eqb (get_source m x) n) (sm_sources m)) =? 1) then 100
     else if negb (match original with Some ot => map_consistent ot im | None => true end) then 100
     (* a shared name carries the same content everywhere: if the inner map names the inner file too *)
     else if negb (match find_text (sm_sources im) n 0 with
